@@ -170,6 +170,20 @@ pub fn gen_case(seed: u64, idx: u64, pairs: usize) -> Case {
             }
         }
     }
+    // `fst set` takes lines as byte strings: a first line that begins with
+    // what some tools treat as file metadata (a UTF-8 or UTF-16 byte order
+    // mark, a comment sign, a quote, a gzip magic number) is a key like any
+    // other, at the head of a file as anywhere else
+    if mode == Mode::Set && rng.chance(1, 8) {
+        let head = *rng.pick(&["\u{ef}\u{bb}\u{bf}", "\u{ef}\u{bb}\u{bf}", "\u{ff}\u{fe}", "\u{fe}\u{ff}", "#", "\"", "\u{1f}\u{8b}", "%"]);
+        let whole = rng.chance(1, 4);
+        for fi in 0..nfiles {
+            if !files[fi].is_empty() && (fi == 0 || rng.chance(1, 2)) {
+                let old = files[fi][0].0.clone();
+                files[fi][0].0 = if whole { head.to_string() } else { format!("{}{}", head, old) };
+            }
+        }
+    }
     // an older, longer file may already sit at the output path
     let stale_output = if rng.chance(1, 4) { 4096 + rng.usize_below(4096) } else { 0 };
     // the same file named twice on the command line (its rows count twice),
@@ -266,6 +280,11 @@ fn account(st: &mut WStats, idx: u64, case: &Case, run: &crate::world::CaseRun) 
     }
     bump(&mut st.counters, "knob.keep_tmp_dir_invocations", case.runs.iter().filter(|r| r.keep_tmp).count() as u64);
     bump(&mut st.counters, "knob.tmp_dir_on_another_file_system_invocations", case.runs.iter().filter(|r| r.tmp_on_other_fs).count() as u64);
+    if case.input.mode == Mode::Set
+        && case.input.files.iter().any(|f| f.first().map(|r| r.0.starts_with("\u{ef}\u{bb}\u{bf}")).unwrap_or(false))
+    {
+        bump(&mut st.counters, "input.first_line_begins_with_a_byte_order_mark", 1);
+    }
     if case.input.crlf.iter().any(|b| *b) {
         bump(&mut st.counters, "input.crlf_line_ends", 1);
     }
